@@ -3,6 +3,7 @@
 package main
 
 import (
+	"bytes"
 	"errors"
 	"fmt"
 	"io"
@@ -658,7 +659,9 @@ func init() {
 	streams["viso"] = func(o *out, r *rng, thorough bool) {
 		if thorough {
 			visoStream(o, r, 300, 60, true)
+			c18Wide(o, r, 24)
 		} else {
+			c18Wide(o, r, 4)
 			visoStream(o, r, 34, 25, false)
 			visoStream(o, r, 6, 25, true) // a few trees with sparse multi-GiB files (multi-extent records)
 		}
@@ -676,5 +679,101 @@ func init() {
 			res, _ = runViso(root, c)
 		})
 		return res, ""
+	}
+}
+
+// ---------- C18 on a filesystem that keeps timestamps ext4 cannot (before 1901, after 2446) ----------
+
+// wideTimeRoot: a scratch directory on tmpfs if it stores a year-1850 mtime faithfully, else "".
+func wideTimeRoot() string {
+	for _, base := range []string{"/dev/shm", "/run/shm"} {
+		d, err := os.MkdirTemp(base, "vwide-")
+		if err != nil {
+			continue
+		}
+		p := filepath.Join(d, "probe")
+		os.WriteFile(p, []byte("x"), 0o644)
+		old := time.Date(1850, 6, 1, 12, 0, 0, 0, time.UTC)
+		if os.Chtimes(p, old, old) == nil {
+			if st, err := os.Stat(p); err == nil && st.ModTime().Year() == 1850 {
+				os.Remove(p)
+				return d
+			}
+		}
+		os.RemoveAll(d)
+	}
+	return ""
+}
+
+// c18Wide: trees whose timestamps lie outside what a directory record can express; the image must
+// still be a function of the tree alone (built twice, more than a second apart).
+func c18Wide(o *out, r *rng, n int) {
+	base := wideTimeRoot()
+	if base == "" {
+		o.notes = append(o.notes, "c18x: no filesystem with wide timestamps available, skipped")
+		return
+	}
+	defer os.RemoveAll(base)
+	years := []int{1601, 1850, 1899, 1900, 1969, 2155, 2156, 2500, 9999}
+	type job struct {
+		root, desc string
+		ps3        bool
+		h0         string
+	}
+	head := func(root string, ps3 bool) string {
+		fsys := &fs.FS{Fs: afero.NewBasePathFs(afero.NewOsFs(), root)}
+		prefix := "/***DVD***"
+		if ps3 {
+			prefix = "/***PS3***"
+		}
+		g, err := fsys.Open(prefix + "/img")
+		if err != nil {
+			return "openerr:" + errClass(err)
+		}
+		defer g.Close()
+		gs, _ := g.Stat()
+		buf := make([]byte, gs.Size())
+		k, _ := sectionReaderAt{g}.ReadAt(buf, 0)
+		maskImage(buf[:k], 0, ps3)
+		return digest(buf[:k])
+	}
+	var jobs []job
+	for i := 0; i < n; i++ {
+		root := filepath.Join(base, fmt.Sprintf("t%d", i))
+		os.MkdirAll(filepath.Join(root, "img", "sub"), 0o755)
+		var desc []string
+		set := func(p string) {
+			y := years[r.intn(len(years))]
+			tm := time.Date(y, time.Month(1+r.intn(12)), 1+r.intn(28), r.intn(24), r.intn(60), r.intn(60), 0, time.UTC)
+			os.Chtimes(p, tm, tm)
+			desc = append(desc, fmt.Sprintf("%s@%d", filepath.Base(p), y))
+		}
+		ps3 := r.chance(40)
+		if ps3 {
+			os.MkdirAll(filepath.Join(root, "img", "PS3_GAME"), 0o755)
+			os.WriteFile(filepath.Join(root, "img", "PS3_GAME", "PARAM.SFO"), sfoBytes([][2]string{{"TITLE_ID", "BLES12345"}}), 0o644)
+			set(filepath.Join(root, "img", "PS3_GAME", "PARAM.SFO"))
+			set(filepath.Join(root, "img", "PS3_GAME"))
+		}
+		for k := 0; k < 3; k++ {
+			p := filepath.Join(root, "img", "sub", fmt.Sprintf("f%d.bin", k))
+			os.WriteFile(p, bytes.Repeat([]byte{byte(k)}, 100+r.intn(5000)), 0o644)
+			set(p)
+		}
+		set(filepath.Join(root, "img", "sub"))
+		set(filepath.Join(root, "img"))
+		jobs = append(jobs, job{root: root, desc: strings.Join(desc, ","), ps3: ps3})
+	}
+	for i := range jobs {
+		jobs[i].h0 = head(jobs[i].root, jobs[i].ps3)
+	}
+	time.Sleep(1100 * time.Millisecond) // a substituted time.Now() has one-second resolution in a directory record
+	for i, j := range jobs {
+		again := "again=same"
+		if h1 := head(j.root, j.ps3); h1 != j.h0 || strings.HasPrefix(h1, "openerr") {
+			again = "again=DIFFERENT"
+		}
+		o.count("c18x")
+		o.emit(fmt.Sprintf("c18x %v %s", j.ps3, j.desc), again, "", fmt.Sprintf("wide%d", i))
 	}
 }
